@@ -3,7 +3,7 @@ from vlib import *
 import gen_vi
 from props import vilib
 
-PROP = "C07"; MODULES = ["NeatviVerif.Props.C07", "NeatviVerif.Props.C07b", "NeatviVerif.Props.C07c"]; MODE = "vi07"
+PROP = "C07"; MODULES = ["NeatviVerif.Props.C07", "NeatviVerif.Props.C07b", "NeatviVerif.Props.C07c", "NeatviVerif.Props.C07d"]; MODE = "vi07"
 
 def streams(probe, tier, seed, wide):
     rng = Rng(seed)
